@@ -228,6 +228,7 @@ func init() {
 			{ID: "C13.R4", Title: "in encodeRunCode/encodeRunIndentCode the callee under each (Debug, Colorize) combination is Run/DebugRun of the package the combination names", Covers: "Debug and Colorize select the matching interpreter", Min: 8, Run: c13r4},
 			{ID: "C13.R5", Title: "every function that takes an encoder RuntimeContext first assigns Flag = 0, then sets NormalizeUTF8Option and HTMLEscapeOption plus only the flag naming the entry", Covers: "Encoder.Encode, MarshalNoEscape, MarshalContext and Marshal start from the same option state", Min: 20, Run: c13r5},
 			{ID: "C08.R3", Title: "frame trailer placement and +3 sizing (shared with C08)", Covers: "MarshalIndent of recursive and interface values keeps its saved indentation", Min: 12, Run: c08r3},
+			{ID: "C13.R7", Title: "in both indenting helper packages appendMapKeyValue and appendMapKeyIndent pass the same depth to appendIndent, and so do appendMapEnd and appendObjectEnd", Covers: "UnorderedMap changes only the order of map members", Min: 4, Run: c13r7},
 			{ID: "C13.R6", Title: "every read of Opcode.Indent outside the compiler is combined with ctx.BaseIndent: in one additive expression, assigned into BaseIndent, or passed (possibly through a local) to a parameter that is", Covers: "MarshalIndent indents values reached through interface{} or recursion like Indent(Marshal(v))", Min: 28, Run: c13r6},
 			{ID: "C03.R3", Title: "separator width protocol per VM package (shared with C03)", Covers: "no variant leaves or eats a separator", Min: 60, Run: c03r3},
 		},
